@@ -72,7 +72,15 @@ def main():
                     if tok.startswith("replay="):
                         src = tok[len("replay="):]
                         if os.path.exists(src):
-                            sh(f"cp {src} {d}/replay_{p}_{os.path.basename(src)}")
+                            dst = f"{d}/replay_{p}_{os.path.basename(src)}"
+                            if os.path.getsize(src) > 1000000:
+                                # a multi-megabyte case (bodies, backlogs): keep its head, the suite regenerates it
+                                with open(src, "rb") as fi, open(dst, "wb") as fo:
+                                    for l in fi.read(20000).split(b"\n")[:-1]:
+                                        fo.write((l if len(l) <= 400 else l[:300] + b" ...(cut)") + b"\n")
+                                    fo.write(b"# (file truncated: was %d bytes)\n" % os.path.getsize(src))
+                            else:
+                                sh(f"cp {src} {dst}")
     finally:
         sh(f"git -C {REPO} checkout -- .")
         sh(f"git -C {VERIF} checkout -- evidence")
